@@ -83,6 +83,8 @@ def run_task(interp_factory, target, contract, name=None, args_builder=None, set
                     vals[p] = interp.ev(d, interp.module_frame(fi.module))
                 mark_old(ctx, vals[p])
             entry.vars.update(vals)
+            for gname, gb in contract.ghosts.items():
+                entry.vars[gname] = gb(interp, entry) if callable(gb) else gb
             if setup is not None:
                 setup(interp, entry)
             for nm, tx in contract.requires:
